@@ -1,6 +1,6 @@
 (* Proofs about Model/Split.v (C18). *)
 From Coq Require Import ZArith List Bool Lia ZifyBool Permutation.
-From MoPep Require Import Model.Base Gen.HeaderCfg Model.Header Model.Filter Model.Split Proofs.FilterProofs.
+From MoPep Require Import Model.Base Gen.HeaderCfg Model.Header Model.Filter Model.Split Proofs.FilterProofs Proofs.SplitOrder.
 Import ListNotations.
 Open Scope Z_scope.
 
@@ -30,26 +30,6 @@ Proof.
   apply mapM_ok in E. rewrite <- (Forall2_length _ _ _ E). reflexivity.
 Qed.
 
-(* ---- sorting is a permutation ---- *)
-Lemma insert_info_perm : forall lv x l r, insert_info lv x l = Ok r -> Permutation (x :: l) r.
-Proof.
-  induction l as [|y t IH]; cbn [insert_info]; intros r H.
-  - inversion H. apply Permutation_refl.
-  - destruct (info_lt lv x y) as [b|]; cbn [bind] in H; try discriminate.
-    destruct b.
-    + inversion H. apply Permutation_refl.
-    + destruct (insert_info lv x t) as [r'|] eqn:E; cbn [bind] in H; try discriminate.
-      inversion H; subst r. eapply Permutation_trans. apply perm_swap. apply perm_skip. apply IH. reflexivity.
-Qed.
-
-Lemma sort_infos_perm : forall lv l r, sort_infos lv l = Ok r -> Permutation l r.
-Proof.
-  induction l as [|x t IH]; cbn [sort_infos]; intros r H.
-  - inversion H. constructor.
-  - destruct (sort_infos lv t) as [s|] eqn:E; cbn [bind] in H; try discriminate.
-    apply insert_info_perm in H. eapply Permutation_trans; [|exact H]. apply perm_skip. apply IH. reflexivity.
-Qed.
-
 Lemma map_wild_label : forall c e e', map_wild c e = Ok e' ->
   si_label e' = si_label e /\ si_genes e' = si_genes e /\ si_index e' = si_index e.
 Proof.
@@ -72,7 +52,8 @@ Lemma split_pep_spec : forall c p k s sorted,
   split_pep c p = Ok (k, (s, sorted)) ->
   s = fst p /\ Permutation (map si_label sorted) (map si_label (snd p)) /\
   exists h t es', sorted = h :: t /\ k = db_key c (si_sources h) /\
-                  mapM (map_wild c) (snd p) = Ok es' /\ In h es'.
+                  mapM (map_wild c) (snd p) = Ok es' /\ In h es' /\
+                  forall e, In e es' -> src_gt (c_levels c) (si_sources h) (si_sources e) = Ok false.
 Proof.
   unfold split_pep. intros c p k s sorted H.
   destruct (mapM (map_wild c) (snd p)) as [es'|] eqn:Em; cbn [bind] in H; try discriminate.
@@ -81,8 +62,9 @@ Proof.
   pose proof (sort_infos_perm _ _ _ Es) as Hp.
   split; [reflexivity|]. split.
   - rewrite <- (mapM_map_wild_labels _ _ _ Em). apply Permutation_sym. apply Permutation_map. exact Hp.
-  - exists h, t, es'. repeat split; auto.
-    apply (Permutation_in h (Permutation_sym Hp)). left. reflexivity.
+  - destruct (sort_head_minimal _ _ _ _ Es) as [Hin Hmin].
+    exists h, t, es'. split; [reflexivity|]. split; [reflexivity|]. split; [reflexivity|]. split; [exact Hin|].
+    intros e He. apply Hmin. exact He.
 Qed.
 
 (* ---- grouping into databases ---- *)
@@ -174,11 +156,12 @@ Proof.
   cbn [fst snd]. auto.
 Qed.
 
-Theorem split_choice_partial_l : forall c pool a,
+Theorem split_choice_l : forall c pool a,
   split_assign c pool = Ok a ->
   Forall2 (fun p kx =>
      exists h t es', snd (snd kx) = h :: t /\ fst kx = db_key c (si_sources h) /\
-                     mapM (map_wild c) (snd p) = Ok es' /\ In h es')
+                     mapM (map_wild c) (snd p) = Ok es' /\ In h es' /\
+                     forall e, In e es' -> src_gt (c_levels c) (si_sources h) (si_sources e) = Ok false)
           (dedup pool) a.
 Proof.
   unfold split_assign. intros c pool a H.
